@@ -880,7 +880,70 @@ func init() {
 						c.Violation("key-held-in-variable", fmt.Sprintf("with k = %q, %s gave %s, want %q", k, src, got.Describe(), want), map[string]any{"source": src, "key": k})
 					}
 				}}
-			return []core.Section{reuse, sameName, large, shared, entries, namesLike, methods, varKeys, {Name: "generated-values", N: n,
+			// round 16: booleans, nil and numbers of the data in every position of use, against the same template written
+			// with the equal literal ("as the equal literal would"): conditions of @if/@elseif/@for, ternaries, @breakIf and
+			// @continueIf, prefix operators, elements of literals, arguments
+			type c12Flags struct {
+				On, Off bool
+				POn     *bool
+				Zero    int
+				Nothing *int
+			}
+			useTemplates := []string{
+				"@if(T)y@else n@end|@if(F)y@else n@end", "@if(F)a@elseif(T)b@else c@end|@if(F)a@elseif(F)b@else c@end", "{{ T ? 1 : 2 }}|{{ F ? 1 : 2 }}",
+				"@each(v in [1, 2, 3])[{{ v }}@continueIf(T)x]@end|@each(v in [1, 2, 3])[{{ v }}@continueIf(F)x]@end",
+				"@each(v in [1, 2, 3])[{{ v }}@breakIf(T)x]@end|@each(v in [1, 2, 3])[{{ v }}@breakIf(F)x]@end",
+				"@for(k = 0; k < 3; k++)[{{ k }}@breakIf(T)x]@end|@for(k = 0; k < 3; k++)[{{ k }}@continueIf(T)x]@end|@for(k = 0; F; k++)x@else none@end",
+				"{{ !T }}|{{ !F }}|{{ !!T }}", "{{ T.then('a', 'b') }}|{{ F.then('a', 'b') }}", "{{ [T, F] }}|{{ {a: T, b: F}.a }}|{{ [F][0] ? 'y' : 'n' }}",
+				"{{ x = T }}{{ x }}|{{ x ? 'y' : 'n' }}|@if(x)y@end", "@each(v in [T, F, T])@continueIf(v)[{{ loop.index }}]@end", "@each(v in [F, F, T, F])@breakIf(v)[{{ loop.index }}]@end",
+				"@if(N)y@else n@end|{{ N ? 1 : 2 }}|{{ !N }}|@each(v in [1, 2])x@breakIf(N)@end|@each(v in [1, 2])x@continueIf(N)y@end", "{{ N }}|{{ [N, 1] }}|{{ x = N }}{{ x }}",
+				"@if(Z)y@else n@end|{{ Z ? 1 : 2 }}|@each(v in [1, 2])x@breakIf(Z)@end|@each(v in [1, 2])x@continueIf(Z)y@end|{{ -Z }}|{{ Z + 1 }}",
+			}
+			yes := true
+			useData := map[string]any{"t": true, "f": false, "o": map[string]any{"t": true, "f": false, "n": nil, "z": 0}, "bs": []bool{true, false}, "pt": &yes, "st": c12Flags{On: true, POn: &yes},
+				"n": nil, "z": 0, "z8": int8(0), "uz": uint(0), "any": []any{true, false, nil, 0}}
+			spell := map[string][]string{
+				"T": {"t", "o.t", "bs[0]", "pt", "st.On", "st.on", "st.pOn", "any[0]", "o['t']"},
+				"F": {"f", "o.f", "bs[1]", "st.Off", "st.off", "any[1]"},
+				"N": {"n", "o.n", "st.Nothing", "any[2]"},
+				"Z": {"z", "o.z", "z8", "uz", "st.Zero", "any[3]"},
+			}
+			literal := map[string]string{"T": "true", "F": "false", "N": "nil", "Z": "0"}
+			inUse := core.Section{Name: "scalars-of-the-data-in-every-position-of-use", Exhaustive: true, N: len(useTemplates) * 9,
+				Run: func(c *core.Ctx, i int) {
+					tmpl, k := useTemplates[i/9], i%9
+					sub := func(form func(ph string) string) string {
+						out := tmpl
+						for _, ph := range []string{"T", "F", "N", "Z"} {
+							out = strings.ReplaceAll(out, "("+ph+")", "("+form(ph)+")")
+							out = strings.ReplaceAll(out, " "+ph+" ", " "+form(ph)+" ")
+							out = strings.ReplaceAll(out, " "+ph+".", " "+form(ph)+".")
+							out = strings.ReplaceAll(out, "!"+ph+" ", "!("+form(ph)+") ") // a prefix operator binds tighter than the dot
+							out = strings.ReplaceAll(out, "-"+ph+" ", "-("+form(ph)+") ")
+							out = strings.ReplaceAll(out, "["+ph+",", "["+form(ph)+",")
+							out = strings.ReplaceAll(out, "["+ph+"]", "["+form(ph)+"]")
+							out = strings.ReplaceAll(out, " "+ph+",", " "+form(ph)+",")
+							out = strings.ReplaceAll(out, " "+ph+"]", " "+form(ph)+"]")
+							out = strings.ReplaceAll(out, " "+ph+"}", " "+form(ph)+"}")
+						}
+						return out
+					}
+					litSrc := sub(func(ph string) string { return literal[ph] })
+					dataSrc := sub(func(ph string) string { return spell[ph][k%len(spell[ph])] })
+					c.Input(map[string]any{"with_literals": litSrc, "with_data": dataSrc})
+					want := evalString(c, litSrc, nil)
+					got := evalString(c, dataSrc, useData)
+					c.Nontrivial(dataSrc)
+					c.Count("literal_vs_data_renders", 1)
+					if want.Panicked || got.Panicked {
+						return
+					}
+					if (want.Err != nil) != (got.Err != nil) || want.Out != got.Out {
+						c.Violation("data-scalar-unlike-literal", fmt.Sprintf("%s gave %s with the data, but %s gave %s", dataSrc, got.Describe(), litSrc, want.Describe()),
+							map[string]any{"with_literals": litSrc, "with_data": dataSrc})
+					}
+				}}
+			return []core.Section{reuse, sameName, large, shared, entries, namesLike, methods, varKeys, inUse, {Name: "generated-values", N: n,
 				Run: func(c *core.Ctx, i int) {
 					depth := 1 + i%4
 					// the same seed builds the value twice: one is rendered, one is the reference copy
